@@ -5,7 +5,9 @@ package main
 
 import (
 	"bufio"
+	crand "crypto/rand"
 	"encoding/json"
+	"errors"
 	"flag"
 	"fmt"
 	"os"
@@ -20,6 +22,37 @@ import (
 	"verif/sim/worlds/pool"
 	"verif/sim/worlds/sign"
 )
+
+// brokenSystemEntropy: in some pool-world jobs the system entropy source
+// (crypto/rand.Reader) is broken - fails, or delivers zeros - while the
+// process makes its first calls into the library, and healthy afterwards
+// (an early-boot process, a sandbox without /dev/urandom).  No operation of
+// the pool world asks for system entropy on the unchanged tree; a library
+// that samples a process-wide mask or seed lazily gets a bad one.
+type brokenSystemEntropy struct{ zeros bool }
+
+func (b brokenSystemEntropy) Read(p []byte) (int, error) {
+	if !b.zeros {
+		return 0, errors.New("simulated system entropy source: not available")
+	}
+	for i := range p {
+		p[i] = 0
+	}
+	return len(p), nil
+}
+
+// withFirstRunEntropy runs f (the first history of a pool-world job) with
+// the system entropy source broken, when the job's first index says so.
+func withFirstRunEntropy(world string, jobFrom int, f func()) {
+	if world != "pool" || (jobFrom/13)%4 != 2 {
+		f()
+		return
+	}
+	old := crand.Reader
+	crand.Reader = brokenSystemEntropy{zeros: (jobFrom/13)%8 == 6}
+	defer func() { crand.Reader = old }()
+	f()
+}
 
 func runOne(world, prop, variant string, verifSeed uint64, idx int, src map[string][]kernel.Choice, trace bool) *kernel.Result {
 	res := &kernel.Result{World: world, Prop: prop, Variant: variant, VerifSeed: verifSeed, Idx: idx}
@@ -139,9 +172,20 @@ func main() {
 			sign.VerifyFirstWarmUp() // as the job this run belonged to did
 		}
 		for i := rf.Idx - rf.Prefix; i < rf.Idx; i++ {
-			runOne(rf.World, rf.Prop, *variant, rf.VerifSeed, i, nil, false) // process history only
+			run := func() { runOne(rf.World, rf.Prop, *variant, rf.VerifSeed, i, nil, false) } // process history only
+			if i == rf.Idx-rf.Prefix {
+				withFirstRunEntropy(rf.World, rf.Idx-rf.Prefix, run)
+			} else {
+				run()
+			}
 		}
-		res := runOne(rf.World, rf.Prop, *variant, rf.VerifSeed, rf.Idx, rf.Tape, true)
+		var res *kernel.Result
+		last := func() { res = runOne(rf.World, rf.Prop, *variant, rf.VerifSeed, rf.Idx, rf.Tape, true) }
+		if rf.Prefix == 0 {
+			withFirstRunEntropy(rf.World, rf.Idx, last)
+		} else {
+			last()
+		}
 		res.JobFrom = rf.Idx - rf.Prefix
 		_ = enc.Encode(res)
 		if res.Cfg["abandoned"] == true {
@@ -158,7 +202,13 @@ func main() {
 		sign.VerifyFirstWarmUp()
 	}
 	for i := *from; i < *from+*n; i++ {
-		res := runOne(*world, *prop, *variant, *seed, i, nil, *trace)
+		var res *kernel.Result
+		first := func() { res = runOne(*world, *prop, *variant, *seed, i, nil, *trace) }
+		if i == *from {
+			withFirstRunEntropy(*world, *from, first)
+		} else {
+			first()
+		}
 		if len(res.Violations) > 0 && !*trace && res.Cfg["abandoned"] != true {
 			// re-execute the recorded tape with tracing on (pure function of the tape)
 			res2 := runOne(*world, *prop, *variant, *seed, i, res.Tape, true)
